@@ -56,8 +56,62 @@ def configs(tier):
     return c
 
 
+# Part 2: multi-address connects.  h_eff only knows single-address connects; h_dns (C13's harness) has the worlds in
+# which the connection is made on the second, third... address, on the other address family (sequential: one track
+# drives an IPv4 and an IPv6 descriptor) or on the other happy-eyeballs track.  Its in-force oracle compares, when the
+# connection is established and once more after a further xcm_finish, xcm_attr_get(tcp.keepalive, keepalive_time,
+# keepalive_interval, keepalive_count, user_timeout) with the shim's sockopt table of the descriptor that carries the
+# connection - with the defaults and with non-default values given in the creation map (opts=3: both, a free choice).
+DNS_CONFIGS = [
+    # (params, bound quick, bound thorough or None = thorough only when quick bound is None)
+    ("tp=btcp,algs=6,dns=3,laddrs=1,ctos=1,dnstos=2,maxlen=2,canon=1,opts=3", 1, 2),
+    ("tp=btcp,algs=6,dns=1,laddrs=3,ctos=1,minlen=3,maxlen=3,canon=1,opts=2", 0, 1),
+    ("tp=tls,algs=6,dns=1,laddrs=1,ctos=1,maxlen=2,canon=1,opts=3", 1, 1),
+    ("tp=tcp,algs=6,dns=3,laddrs=3,ctos=3,dnstos=2,maxlen=2,canon=1,opts=3", None, 1),
+    ("tp=btls,algs=6,dns=3,laddrs=1,ctos=1,dnstos=2,maxlen=2,canon=1,opts=3", None, 1),
+    ("tp=utls,algs=6,dns=3,laddrs=1,ctos=1,dnstos=2,maxlen=2,canon=1,opts=3", None, 1),
+]
+
+
+def run_dns_part(chk, tier, jobs):
+    import harnesses
+    q = tier == "quick"
+    cov = chk.coverage
+    exe = harnesses.build_explorer_harness("h_dns", variant="plain")
+    compared = 0
+    for params, bq, bt in DNS_CONFIGS:
+        bound = bq if q else bt
+        if bound is None:
+            continue
+        if msgfamily.needs_tls(params):
+            params += "," + msgfamily.certs()
+        res = harnesses.explore(exe, params, bound, 120 if q else 600, jobs=jobs)
+        harnesses.merge_into(chk, res, ("C11/",), params)
+        for k in ("states", "transitions", "executions"):
+            cov[k] = cov.get(k, 0) + res.get(k, 0)
+        cov["traces_validated_against_impl"] = cov.get("traces_validated_against_impl", 0) + res.get("executions", 0)
+        cov["evaluations"] = cov.get("evaluations", 0) + res.get("executions", 0)
+        cov["configurations"] = cov.get("configurations", 0) + 1
+        compared += (res.get("counters") or [0] * 8)[7]
+        cov.setdefault("per_configuration", []).append(
+            dict(params=params, bound=bound, build="plain", harness="h_dns", executions=res.get("executions"),
+                 completed_bound=res.get("completed_bound"), states=res.get("states"),
+                 transitions=res.get("transitions"), wall_s=round(res.get("elapsed", 0), 2)))
+        for smp in res.get("samples", [])[:1]:
+            if len(cov.setdefault("samples", [])) < 12:
+                cov["samples"].append(dict(scenario=params, execution=smp))
+        if res.get("completed_bound", -1) < bound:
+            cov["exhaustive"] = False
+    cov["in_force_comparisons_multi_address"] = compared
+
+
 def run(chk, tier, jobs, deadline):
     chk.assumptions += ASSUME
+    chk.assumptions.append("multi-address connects (h_dns): canonical resolver answers of 1-3 addresses over {127.0.0.1, 127.0.0.2, ::1, "
+                           "fd00::2}, every accept/refuse/silent assignment, dns.algorithm sequential and happy_eyeballs, default and "
+                           "non-default tcp.* values in the creation map; the options are compared on the descriptor the last "
+                           "connect() to the connected address was issued on")
     msgfamily.run_configs(chk, "h_eff", configs(tier), PREFIXES, jobs,
                           deadline or (420 if tier == "quick" else 2700),
                           counter_names={1: "set_operations_applied", 2: "in_force_comparisons", 3: "static_cells"})
+    run_dns_part(chk, tier, jobs)
